@@ -1121,6 +1121,9 @@ def shrink(ck, pool, f, same_tags=False):
                 q = untuple(json.loads(json.dumps(p)))
                 del q["mods"][i]
                 cands.append(q)
+        # keep what the generator promises: a getter returns a variable its module declares
+        cands = [q for q in cands if all(st[0] != "F" or st[2] is None or any(v[0] == "V" and v[1] == st[2] for v in m["body"])
+                                         for m in q["mods"] for st in m["body"])]
         if not cands:
             break
         sub = Check("C12", "quick", 0)
